@@ -16,6 +16,25 @@ def facts(fa, n) -> Set[Tuple[str, bool]]:
     return {(unparse(a), p) for a, p in fa.facts.atoms_at(n)}
 
 
+def mfacts(fa, n):
+    """branch facts that are method calls on a local receiver: (method, receiver, [argument texts], polarity) -
+    the receiver (the field local) is matched by identity of text with the call under test, never by its name"""
+    out = []
+    for a, p in fa.facts.atoms_at(n):
+        if isinstance(a, ast.Call) and isinstance(a.func, ast.Attribute):
+            out.append((a.func.attr, unparse(a.func.value), [unparse(x) for x in a.args], p))
+    return out
+
+
+def result_names(fa) -> Set[str]:
+    """locals the function returns (alone or inside a returned tuple / call): its result containers"""
+    out = set()
+    for n in fa.cfg.nodes:
+        if n.kind == "stmt" and isinstance(n.ast, ast.Return) and n.ast.value is not None and fa.cfg.is_live(n):
+            out |= {x.id for x in ast.walk(n.ast.value) if isinstance(x, ast.Name) and x.id in fa.rd.locals}
+    return out
+
+
 def r05a(run, rule="R05a"):
     f = run.repo.func("utype.parser.field", "ParserField.get_default")
     fa = analysis(f)
@@ -69,8 +88,8 @@ def r05b(run):
                 continue
             total += 1
             arg = unparse(c.args[0]) if c.args else ""
-            fs = facts(fa, n)
-            ok = any(t.startswith("field.is_no_input(") and t.split("(", 1)[1].startswith(arg) and not p for t, p in fs)
+            recv = unparse(c.func.value)
+            ok = any(m == "is_no_input" and r == recv and a[:1] == [arg] and not p for m, r, a, p in mfacts(fa, n))
             run.check("R05b", f, f"`{unparse(c)[:50]}` runs only when is_no_input({arg}) is false", ok,
                       construct="parse_value without the no-input gate",
                       message=f"{f.qualname}: `{unparse(c)}` is not dominated by the false branch of "
@@ -80,11 +99,11 @@ def r05b(run):
     # the no-input branch stores only the default
     for f in (A, B):
         fa = analysis(f)
+        res = result_names(fa)
         for n in fa.cfg.nodes:
             if n.kind == "stmt" and isinstance(n.ast, ast.Assign) and isinstance(n.ast.targets[0], ast.Subscript) \
-                    and unparse(n.ast.targets[0].value) == "result":
-                fs = facts(fa, n)
-                if any(t.startswith("field.is_no_input(") and p for t, p in fs):
+                    and unparse(n.ast.targets[0].value) in res:
+                if any(m == "is_no_input" and p for m, r, a, p in mfacts(fa, n)):
                     os_ = prov(fa).of_expr(n, n.ast.value)
                     ok = bool(os_) and all(o.kind == "call" and o.text.endswith("get_default") for o in os_)
                     run.check("R05b", f, "a no-input field can only receive its default", ok,
@@ -98,11 +117,11 @@ def r05c(run):
     total = 0
     for f in (A, B, pp):
         fa = analysis(f)
+        res = result_names(fa)
         for n, c in fa.all_calls():
             if is_handle_error_call(c) and c.args and exc_class_of_ctor(c.args[0]) == "AbsenceError":
                 total += 1
-                fs = facts(fa, n)
-                ok = any(t.startswith("field.is_required(") and p for t, p in fs)
+                ok = any(m == "is_required" and p for m, r, a, p in mfacts(fa, n))
                 run.check("R05c", f, "AbsenceError is reported exactly for fields whose is_required() is true", ok,
                           construct="AbsenceError without is_required",
                           message=f"{f.qualname}: AbsenceError is reported without consulting field.is_required()",
@@ -112,9 +131,9 @@ def r05c(run):
                 reg = fa.cfg.reach_from_succ(n, kinds=(N,), avoid=loop_heads)
                 stores = [m for m in reg if m.kind == "stmt" and isinstance(m.ast, ast.Assign)
                           and isinstance(m.ast.targets[0], ast.Subscript)
-                          and unparse(m.ast.targets[0].value) in ("result",)]
+                          and unparse(m.ast.targets[0].value) in res]
                 stores += [m for m in reg if m.kind == "stmt" and any(
-                    call_attr(x) == "append" and unparse(x.func.value) == "parsed_args" for x in fa.calls_at(m))]
+                    call_attr(x) == "append" and unparse(x.func.value) in res for x in fa.calls_at(m))]
                 run.check("R05c", f, "after an absence error nothing is stored for the field", not stores,
                           construct="store after AbsenceError", message=f"{f.qualname}: a value is stored for a field "
                           f"after its AbsenceError was recorded", necessity="with collected errors a default silently "
@@ -123,10 +142,10 @@ def r05c(run):
         for n in fa.cfg.nodes:
             if n.kind == "stmt" and isinstance(n.ast, ast.Assign) and isinstance(n.ast.value, ast.Call) \
                     and call_attr(n.ast.value) == "get_default":
-                fs = facts(fa, n)
-                if any(t.startswith("field.is_no_input(") and p for t, p in fs):
+                mf = mfacts(fa, n)
+                if any(m == "is_no_input" and p for m, r, a, p in mf):
                     continue
-                ok = any(t.startswith("field.is_required(") and not p for t, p in fs)
+                ok = any(m == "is_required" and not p for m, r, a, p in mf)
                 run.check("R05c", f, "the default of a missing field is taken only when the field is not required", ok,
                           construct="default for a required field", message=f"{f.qualname}: `{norm_stmt(n.ast)}` is not "
                           f"guarded by is_required() being false", necessity="a missing required field silently takes "
@@ -201,7 +220,14 @@ def r05d(run):
     run.check("R05d", f, "a falsy (None) addition drops the key, a truthy one keeps it", drops >= 1 and keeps >= 1,
               construct="addition switch incomplete", message=f"parse_addition: drop returns {drops}, keep returns {keeps}")
     conv = [(n, c) for n, c in fa.all_calls() if is_convert_call(fa, n, c)]
-    ok = bool(conv) and all(("not addition_type", False) in facts(fa, n) or ("addition_type", True) in facts(fa, n) for n, c in conv)
+    def typed(n, c):
+        # the conversion target is a local (the role `addition_type` plays) that is known to be truthy at the call
+        t = c.args[1] if len(c.args) >= 2 else kwarg(c, "t")
+        if not isinstance(t, ast.Name):
+            return False
+        fs_ = facts(fa, n)
+        return (f"not {t.id}", False) in fs_ or (t.id, True) in fs_
+    ok = bool(conv) and all(typed(n, c) for n, c in conv)
     run.check("R05d", f, "a declared addition type converts the value", ok, construct="addition type unused",
               message="parse_addition does not convert with the declared addition type")
     ex = [n for n in fa.cfg.nodes if n.kind == "stmt" and isinstance(n.ast, ast.Return)
@@ -223,8 +249,7 @@ def r05e(run):
             if isinstance(c.func, ast.Attribute) and c.func.attr == "__setitem__" and isinstance(c.func.value, ast.Call) \
                     and call_attr(c.func.value) == "super":
                 n_st += 1
-                fs = facts(fa, n)
-                ok = any(t.startswith("field.is_no_output(") and not p for t, p in fs)
+                ok = any(m_ == "is_no_output" and not p for m_, r_, a_, p in mfacts(fa, n))
                 run.check("R05e", f, f"`{unparse(c)[:50]}` keeps a value in the mapping only when is_no_output is false", ok,
                           construct="mapping store without no_output gate", message=f"Schema.{m}: `{unparse(c)}` is not "
                           f"guarded by field.is_no_output(...) being false", necessity="no_output fields appear in the "
@@ -232,8 +257,9 @@ def r05e(run):
         run.floor("R05e", f"mapping stores in Schema.{m}", n_st, 1)
     f = run.repo.func("utype.parser.cls", "ClassParser.set_attributes")
     fa = analysis(f)
-    pops = [(n, c) for n, c in fa.all_calls() if call_attr(c) == "pop" and unparse(c.func.value) == "values"]
-    ok = bool(pops) and all(any(t.startswith("field.is_no_output(") and p for t, p in facts(fa, n)) for n, c in pops)
+    vparam = f.params[1]
+    pops = [(n, c) for n, c in fa.all_calls() if call_attr(c) == "pop" and unparse(c.func.value) == vparam]
+    ok = bool(pops) and all(any(m_ == "is_no_output" and p for m_, r_, a_, p in mfacts(fa, n)) for n, c in pops)
     run.check("R05e", f, "set_attributes removes no_output fields from the mapping values", ok,
               construct="set_attributes no_output", message="set_attributes no longer pops no_output fields from the "
               "values that become the mapping", necessity="no_output fields would be part of the mapping view")
@@ -247,15 +273,23 @@ def r05e(run):
     for n in ga.cfg.nodes:
         if n.kind == "stmt" and isinstance(n.ast, ast.Return) and unparse(n.ast.value) != "unprovided" and ga.cfg.is_live(n):
             fs = facts(ga, n)
-            run.check("R05e", g, "no_default suppresses every default", ("options.no_default", False) in fs,
+            nd = any(opt_attr(a) == "no_default" and not p for a, p in ga.facts.atoms_at(n))
+            run.check("R05e", g, "no_default suppresses every default", nd,
                       construct="no_default ignored", message="get_default can return a default under options.no_default",
                       necessity="Options(no_default=True) would still fill defaults", node=n.ast)
+    # the local that carries the chosen default is found by role: the argument of the returned copy_value(...)
+    dnames = {unparse(n.ast.value.args[0]) for n in ga.cfg.nodes if n.kind == "stmt" and isinstance(n.ast, ast.Return)
+              and isinstance(n.ast.value, ast.Call) and call_attr(n.ast.value) == "copy_value" and n.ast.value.args
+              and isinstance(n.ast.value.args[0], ast.Name)}
     assigns = {}
     for n in ga.cfg.nodes:
-        if n.kind == "stmt" and isinstance(n.ast, ast.Assign) and unparse(n.ast.targets[0]) == "default":
-            assigns[unparse(n.ast.value)] = facts(ga, n)
-    ok = "options.force_default" in assigns and ("unprovided(options.force_default)", False) in assigns["options.force_default"]
-    ok2 = "self.default" in assigns and ("unprovided(options.force_default)", True) in assigns["self.default"]
+        if n.kind == "stmt" and isinstance(n.ast, ast.Assign) and unparse(n.ast.targets[0]) in dnames:
+            v = n.ast.value
+            key = "force_default" if opt_attr(v) == "force_default" else unparse(v)
+            assigns[key] = {("unprovided(force_default)" if isinstance(a, ast.Call) and call_attr(a) == "unprovided" and a.args
+                             and opt_attr(a.args[0]) == "force_default" else unparse(a), p) for a, p in ga.facts.atoms_at(n)}
+    ok = "force_default" in assigns and ("unprovided(force_default)", False) in assigns["force_default"]
+    ok2 = "self.default" in assigns and ("unprovided(force_default)", True) in assigns["self.default"]
     fac = [k for k in assigns if "default_factory" in k]
     ok3 = bool(fac) and ("unprovided(self.default)", True) in assigns[fac[0]]
     run.check("R05e", g, "precedence: force_default, then the declared default, then the factory", ok and ok2 and ok3,
